@@ -105,11 +105,11 @@ def decKind (j : Json) (remote : Bool) : Except String (World × Bool) := do
   match fieldStr j "type" with
   | "custom" =>
     let tm : TagMode := match fieldStr j "tag_mode" with | "none" => .none | "nonstr" => .nonStr | _ => .str
-    pure (.custom { cur := none, tagMode := tm, etagFault := none, loadFault := none }, fieldBool j "async")
+    pure (.custom { cur := none, tagMode := tm, etagFault := none, loadFault := none, hi := 0 }, fieldBool j "async")
   | "file" => pure (.file { disk := none, cache := none, mtimeInTag := fieldBool j "mtime_in_tag", hi := 0 }, false)
   | "http" =>
     pure (.http { server := none, serverEtags := fieldBool j "server_etags", failNext := none, cachedTag := none,
-                  cachedDoc := none, tagIsRemote := remote }, false)
+                  cachedDoc := none, tagIsRemote := remote, hi := 0 }, false)
   | "s3" =>
     let det : Detector := match fieldStr j "detector" with | "version_id" => .versionId | "checksum" => .checksum | _ => .etag
     pure (.s3 { obj := none, det, prefer := optStr (field j "prefer"), headFails := false, attrsFail := false,
